@@ -301,11 +301,60 @@ class StmtMixin:
                 if root in an:
                     add_target(an[root])
 
-    def havoc_for_loop(self, st, names, spec, node):
+    def havoc_for_loop(self, st, names, spec, node, paths=()):
         decl = dict(self.contract_stack[-1].locals)
         decl.update(spec.get("locals", {}))
         unbound = set()
+        # roots that are records and only modified through attribute paths: havoc just those attributes
+        by_root = {}
+        for pth in paths:
+            r = pth
+            while isinstance(r, (ast.Attribute, ast.Subscript)):
+                r = r.value
+            if isinstance(r, ast.Name):
+                by_root.setdefault(r.id, []).append(pth)
+        partial = {}
+        for root, pths in by_root.items():
+            cur = st.vars.get(root)
+            if root in st.alias or not isinstance(cur, VRec):
+                continue
+            subs = []
+            ok = True
+            for pth in pths:
+                # longest pure-attribute prefix
+                chain = []
+                n2 = pth
+                while isinstance(n2, (ast.Attribute, ast.Subscript)):
+                    chain.append(n2)
+                    n2 = n2.value
+                chain.reverse()
+                pref = None
+                for c_ in chain:
+                    if isinstance(c_, ast.Attribute):
+                        pref = c_
+                    else:
+                        break
+                if pref is None:
+                    ok = False
+                    break
+                subs.append(pref)
+            if ok and subs:
+                partial[root] = subs
+        for root, subs in partial.items():
+            for sub in subs:
+                try:
+                    curv = self.ev(sub, st)
+                except Unsupported:
+                    continue
+                if isinstance(curv, VFunc):
+                    continue
+                nv = fresh(curv.ty, ast.unparse(sub).replace(".", "_"))
+                for w in wf(nv):
+                    st.assume(w)
+                self.assign_to(sub, nv, st)
         for n in sorted(names):
+            if n in partial:
+                continue
             tgt = ast.Name(id=n, ctx=ast.Load())
             if n in st.alias:
                 cur = self.ev(st.alias[n], st)
@@ -352,9 +401,9 @@ class StmtMixin:
             self.unsupported(s, "loop inside a transparent callee")
         k, spec = self.loop_spec(s)
         self.check_invs(st, spec, "inv-entry", s, k)
-        names, _ = self.modified_in(s.body + s.orelse)
+        names, mpaths = self.modified_in(s.body + s.orelse)
         head = st.copy()
-        unbound = self.havoc_for_loop(head, names, spec, s)
+        unbound = self.havoc_for_loop(head, names, spec, s, mpaths)
         for u in unbound:
             head.vars.pop(u, None)
         self.assume_invs(head, spec)
@@ -498,14 +547,14 @@ class StmtMixin:
         # ---- entry: invariants with _k = 0
         entry_extra = {kname: VInt(0)}
         self.check_invs(st, spec, "inv-entry", s, k, entry_extra)
-        names, _ = self.modified_in(s.body + s.orelse)
+        names, mpaths = self.modified_in(s.body + s.orelse)
         tnames = set()
         for n in ast.walk(target):
             if isinstance(n, ast.Name):
                 tnames.add(n.id)
         names |= tnames
         head = st.copy()
-        unbound = self.havoc_for_loop(head, names - tnames, spec, s)
+        unbound = self.havoc_for_loop(head, names - tnames, spec, s, mpaths)
         kk = z3.Int(fresh_name(kname))
         head.vars[kname] = VInt(kk)
         head.assume(z3.And(0 <= kk, kk <= count))
